@@ -178,6 +178,14 @@ theorem findSubseq_spec (ns : NewSsi) (h : ns.WF) (cur : Option Bytes) (bytes : 
   rw [open_image h]
   exact findSubseq_primary h hd k hk hfh start h1 h2 hL
 
+/-- a requested start outside `1..L` (0 and negative values included) is `eslERANGE` -/
+theorem findSubseq_erange (ns : NewSsi) (h : ns.WF) (cur : Option Bytes) (bytes : Bytes) (hw : (ns.write cur).2.2 = some bytes)
+    (k : PKey) (hk : k ∈ ns.pkeys) (start : Int) (hr : start < 1 ∨ start > (k.len : Int)) (hL : k.len < 2^63) :
+    (Ssi.open bytes.toArray).bind (·.findSubseq k.key start) = .error .erange := by
+  obtain ⟨hd, rfl⟩ := written_file ns h cur bytes hw
+  rw [open_image h]
+  exact findSubseq_range h hd k hk start hr hL
+
 /-! ## internal sort = external sort, for every insertion history -/
 
 /-- The bytes of the index (and the status, duplicates included) are the same whether the keys were sorted in
